@@ -183,7 +183,22 @@ def ok_bun(W, bun):
     return True
 
 
+FLIPS = [["adjoint"], ["inverse"], ["adjoint", "inverse"], ["inverse", "adjoint"], ["inverse", "inverse"],
+         ["adjoint", "adjoint"], ["adjoint", "inverse", "adjoint"], ["inverse", "adjoint", "inverse"],
+         ["adjoint", "inverse", "inverse"]]
+
+
 def cov(W, rng, d, dt, depth, mode="ok"):
+    """a covariance-like script, with probability 0.45 below a random combination of `.adjoint` / `.inverse` (every pending
+    transformation of diagonals, nested adapters around sandwiches / sums / block-diagonals, in both orders)"""
+    e = cov_core(W, rng, d, dt, depth, mode)
+    if rng.random() < 0.45:
+        for f in rng.choice(FLIPS):
+            e = dict(op=f, a=e, d=d, t=d)
+    return e
+
+
+def cov_core(W, rng, d, dt, depth, mode="ok"):
     """a script for a covariance-like operator on domain d with sampling dtype code dt"""
     if d in W.multi:
         kinds = ["block", "block", "scaling", "add"] if depth > 0 else ["block", "scaling"]
